@@ -39,7 +39,10 @@ def p_expr(e, style=None):
   if k == 'var':
     return e[1]
   if k == 'bin':
-    return '(%s %s %s)' % (p_expr(e[2], style), e[1], p_expr(e[3], style))
+    left = p_expr(e[2], style)
+    if e[2][0] == 'bin' and e[2][1] == e[1] and e[1] in ('-', '+', '*', '++') and left.startswith('(') and left.endswith(')'):
+      left = left[1:-1]       # a chain of one operator is written without inner parentheses: a - b - c is (a - b) - c
+    return '(%s %s %s)' % (left, e[1], p_expr(e[3], style))
   if k == 'list':
     return '[%s]' % ', '.join(p_expr(x, style) for x in e[1])
   if k == 'rec':
@@ -408,6 +411,9 @@ class Gen:
         return ('fun', 'Element', [lst, ('fun', 'Abs', [('bin', r.choice(['+', '-']), self.expr_of('int', bound, 0),
                                                           self.expr_of('int', bound, 0))])])
       if k < 0.45:
+        if r.random() < 0.3:     # a chain of one operator, printed without inner parentheses: a - b - c
+          op = r.choice(['-', '-', '+', '*'])
+          return ('bin', op, ('bin', op, self.expr_of('int', bound, 0), self.expr_of('int', bound, 0)), self.expr_of('int', bound, 0))
         return ('bin', r.choice(['+', '-', '*']), self.expr_of('int', bound, depth - 1), self.expr_of('int', bound, depth - 1))
       if k < 0.6 and self.p('ifthenelse'):
         return self.if_of('int', bound, depth)
